@@ -60,16 +60,27 @@ Proof. exact wstep_inv. Qed.
 Theorem C18_abs_inv : forall w, WInv w -> Inv (abs w).
 Proof. exact abs_inv. Qed.
 
+(* NFT ids appear only through Register events of the Turnstile: derived from Model/Csr.v *)
+Theorem C18_csr_ids_from_register_events : forall t s n,
+  Canto.Model.Csr.csrs (Canto.Model.Csr.reg (Canto.Model.Csr.deliver t s)) n <> None ->
+  Canto.Model.Csr.csrs (Canto.Model.Csr.reg s) n <> None \/
+  exists ts, Canto.Model.Csr.turnstile (Canto.Model.Csr.cfg s) = Some ts /\ In n (ts_reg_ids ts (Canto.Model.Csr.tx_logs t)).
+Proof. exact deliver_ids. Qed.
+
 (* after any history: the export is valid, imports, re-exports to the same documents, answers the same.
-   _partial: see Proofs/GenesisProofs.v - the CSR clause of [op_ok] is assumed, not derived. *)
-Theorem C18_history_partial : forall gov day c os w,
+   [hist_ok gov day w os] asks, operation by operation ([op_ok]), only for two external facts:
+     - WErc20: the address the EVM gives to the contract deployed by RegisterCoin is not the address of a
+       registered pair ([TokenPairsProofs.fresh_ok], a fact about the EVM's CREATE addresses);
+     - WBlock: the block height is not negative.
+   Everything else is derived from the operational models. *)
+Theorem C18_history : forall gov day c os w,
   ctx_ok c -> WInv w -> hist_ok gov day w os ->
   let s := abs (wrun gov day os w) in
   validate (export s) = true /\
   exists s', import c (export s) = Some s' /\
              gen_equiv (export s') (export s) /\
              forall pr, answer pr s' = answer pr s.
-Proof. exact history_partial. Qed.
+Proof. exact history. Qed.
 
 Theorem C18_history_nonvacuous : WInv ex_world /\ hist_ok ex_gov 0 ex_world ex_ops.
 Proof. exact (conj ex_winv ex_hist_ok). Qed.
@@ -89,6 +100,7 @@ Print Assumptions C18_nonvacuous.
 Print Assumptions C18_coinswap_sequence.
 Print Assumptions C18_wstep_inv.
 Print Assumptions C18_abs_inv.
-Print Assumptions C18_history_partial.
+Print Assumptions C18_csr_ids_from_register_events.
+Print Assumptions C18_history.
 Print Assumptions C18_history_nonvacuous.
 Print Assumptions C18_import_defined_for_valid_params.
